@@ -327,3 +327,26 @@ Theorem c07_size_update_sites_are_source :
   sites "setSize" = ["nodeLoc.write"].
 Proof. exact DecSites.size_update_sites. Qed.
 Print Assumptions c07_size_update_sites_are_source.
+
+(* the reclaim marks a failed mutation left are cleared wherever they are: unmarkReclaimable walks the whole loaded tree
+   (no early stop at an unmarked node), one lock section per node, released before it descends *)
+From GK Require Import DecMarks.
+Theorem c07_unmark_walks_the_whole_tree_is_source :
+  body "Collection.unmarkReclaimable" =
+    [SIf [] (GCall "nloc.isEmpty" []) [SReturn []] [];
+     SAssign [GVar "n"] ":=" [GCall "nloc.Node" []];
+     SIf [] (GBin "==" (GVar "n") GNil) [SReturn []] [];
+     SExpr (GCall "t.rootLock.Lock" []);
+     SIf [] (GBin "==" (GVar "n.next") (GVar "reclaimMark")) [SAssign [GVar "n.next"] "=" [GNil]] [];
+     SExpr (GCall "t.rootLock.Unlock" []);
+     SExpr (GCall "t.unmarkReclaimable" [GUn "&" (GVar "n.left"); GVar "reclaimMark"]);
+     SExpr (GCall "t.unmarkReclaimable" [GUn "&" (GVar "n.right"); GVar "reclaimMark"])] /\
+  body "Collection.markReclaimable" =
+    [SExpr (GCall "t.rootLock.Lock" []);
+     SDefer (GCall "t.rootLock.Unlock" []);
+     SIf [] (GBin "||" (GBin "||" (GBin "==" (GVar "n") GNil) (GBin "!=" (GVar "n.next") GNil))
+                       (GBin "==" (GVar "n") (GVar "reclaimMark")))
+       [SReturn []] [];
+     SAssign [GVar "n.next"] "=" [GVar "reclaimMark"]].
+Proof. exact DecMarks.unmark_walks_the_whole_tree. Qed.
+Print Assumptions c07_unmark_walks_the_whole_tree_is_source.
